@@ -61,7 +61,7 @@ func NewPool(leaves []*Rx, cards []int, maxSize int) *Pool {
 // @discard}. Index i decodes by mixed radix; Size() is the raw count.
 type RuleSets struct {
 	Pools []*Pool // one pool per rule position
-	Kinds int     // 2: token / discard-frag
+	Kinds int     // 2: token / discard fragment; 3: + accumulating fragment
 }
 
 func (rs *RuleSets) Size() int64 {
@@ -84,9 +84,12 @@ func (rs *RuleSets) Get(idx int64) *Spec {
 		if k == 0 {
 			r.K = RToken
 			r.Name = fmt.Sprintf("T%d", i+1)
-		} else {
+		} else if k == 1 {
 			r.K = RFrag
 			r.Actions = []Action{{K: ADiscard}}
+		} else {
+			// accumulating fragment: its text is kept for the next rule
+			r.K = RFrag
 		}
 		s.Modes[0].Rules = append([]Rule{r}, s.Modes[0].Rules...)
 	}
